@@ -534,6 +534,10 @@ mutual
           | (true, st2) => eval fuel st2 ee c
           | (false, st2) => (.thrown v, st2)
         | r => r
+      | .switch_ sc arms =>
+        match eval fuel st env sc with
+        | (.val v, st) => evalSwitch fuel st env v arms
+        | r => r
       | .evalSrc e => eval fuel st env e          -- `eval` runs the parsed text in the calling scope
       | .freeze e =>
         -- `Expr::Freeze`: rewrite with an empty bound set against the current scope, then evaluate the
@@ -545,6 +549,17 @@ mutual
         match freezeExpr look { bound := [], tab := st.frozenTab } e with
         | .ok (e', fs) => eval fuel { st with frozenTab := fs.tab } env e'
         | .error _ => (.thrown .err, st)
+
+  /-- `Expr::Switch`: the first arm whose pattern binds the scrutinee, each arm tried in a FRESH scope;
+  no arm: raises -/
+  def evalSwitch : Nat → State → Nat → Val → List SwitchArm → Res × State
+    | 0, st, _, _, _ => (.fuelOut, st)
+    | _ + 1, st, _, _, [] => (.thrown .err, st)
+    | fuel + 1, st, env, v, .mk p body :: rest =>
+      let (st1, ee) := newFrame st env
+      match declarePat (patDepth p + 1) st1 ee p v with
+      | (true, st2) => eval fuel st2 ee body
+      | (false, st2) => evalSwitch fuel st2 env v rest
 
   /-- `Expr::Sequence`: value of the last expression -/
   def evalSeq : Nat → State → Nat → List Expr → Res × State
